@@ -5,6 +5,7 @@ go 1.17
 require (
 	github.com/kubeshark/base v0.0.0
 	github.com/ohler55/ojg v1.14.5
+	github.com/segmentio/kafka-go v0.4.38
 	golang.org/x/net v0.2.0
 )
 
@@ -21,7 +22,6 @@ require (
 	github.com/mertyildiran/gqlparser/v2 v2.4.6 // indirect
 	github.com/pierrec/lz4/v4 v4.1.15 // indirect
 	github.com/rs/zerolog v1.28.0 // indirect
-	github.com/segmentio/kafka-go v0.4.38 // indirect
 	golang.org/x/sys v0.2.0 // indirect
 	golang.org/x/text v0.4.0 // indirect
 )
